@@ -308,6 +308,93 @@ example : (ulRun (0 : Nat) [.push 1, .unshift 2, .insert 1 3, .remove 0] (UList.
 
 end LISTS
 
+/-! ## Sorted-array helpers (`iwarr_sorted_*`): reference = non-decreasing list -/
+section SORTED
+open Arr
+
+/-- `iwarr_sorted_find` / `find2`: a hit is an index holding `v`, a miss means `v` is absent, and the index
+`find2` reports on a miss is the insertion point -/
+theorem sorted_find_iff (a : List Int) (v : Int) (h : a.Pairwise (· ≤ ·)) :
+    (sortedFind a v = -1 ↔ v ∉ a) ∧
+    (sortedFind a v ≠ -1 → a.getD (sortedFind a v).toNat 0 = v) ∧
+    ((sortedFind2 a v).2 = true ↔ v ∈ a) ∧
+    ((sortedFind2 a v).2 = false → (∀ j, j < (sortedFind2 a v).1 → a.getD j 0 < v) ∧
+       (∀ j, (sortedFind2 a v).1 ≤ j → j < a.length → v < a.getD j 0)) := by
+  have hs := search_spec a v h
+  unfold sortedFind sortedFind2
+  cases hr : search a v with
+  | inl i =>
+    rw [hr] at hs
+    obtain ⟨hi, hv⟩ := hs
+    have hm : v ∈ a := hv ▸ mem_of_getD a i hi
+    exact ⟨by simp [hm], fun _ => by simpa using hv, by simpa using hm, by simp⟩
+  | inr i =>
+    rw [hr] at hs
+    obtain ⟨hi, hb, ha⟩ := hs
+    have hm : v ∉ a := by
+      intro hin
+      obtain ⟨j, hj, hjv⟩ := getD_of_mem a v hin
+      by_cases c : j < i
+      · have := hb j c; omega
+      · have := ha j (by omega) hj; omega
+    exact ⟨by simp [hm], by simp, by simp [hm], fun _ => ⟨hb, ha⟩⟩
+
+/-- `iwarr_sorted_insert`: the array stays sorted, gains exactly `v` at the reported index, or is left alone
+(`-1`) when `skipeq` is set and `v` is present -/
+theorem sorted_insert_sorted (a : List Int) (v : Int) (skipeq : Bool) (h : a.Pairwise (· ≤ ·)) :
+    (sortedInsert a v skipeq).1.Pairwise (· ≤ ·) ∧
+    ((sortedInsert a v skipeq).2 = -1 → skipeq = true ∧ v ∈ a ∧ (sortedInsert a v skipeq).1 = a) ∧
+    ((sortedInsert a v skipeq).2 ≠ -1 → ∃ i : Nat, (sortedInsert a v skipeq).2 = i ∧ i ≤ a.length ∧
+        (sortedInsert a v skipeq).1 = a.take i ++ v :: a.drop i) := by
+  have hs := search_spec a v h
+  have mono := mono_of_sorted a h
+  unfold sortedInsert
+  cases hr : search a v with
+  | inl i =>
+    rw [hr] at hs
+    obtain ⟨hi, hv⟩ := hs
+    have hm : v ∈ a := hv ▸ mem_of_getD a i hi
+    cases skipeq with
+    | true => simp only [if_true]; exact ⟨h, fun _ => ⟨trivial, hm, trivial⟩, fun hc => absurd rfl hc⟩
+    | false =>
+      simp only [Bool.false_eq_true, if_false]
+      refine ⟨sorted_insert_at a v i h (by omega) ?_ ?_, fun hc => by omega, fun _ => ⟨i, rfl, by omega, rfl⟩⟩
+      · intro j hj; have := mono j i (by omega) hi; omega
+      · intro j hj hjl; have := mono i j hj hjl; omega
+  | inr i =>
+    rw [hr] at hs
+    obtain ⟨hi, hb, ha⟩ := hs
+    simp only
+    refine ⟨sorted_insert_at a v i h hi ?_ ?_, fun hc => by omega, fun _ => ⟨i, rfl, hi, rfl⟩⟩
+    · intro j hj; have := hb j hj; omega
+    · intro j hj hjl; have := ha j hj hjl; omega
+
+/-- `iwarr_sorted_remove`: removes one occurrence of `v` (at the reported index) or reports `-1` when absent -/
+theorem sorted_remove_spec (a : List Int) (v : Int) (h : a.Pairwise (· ≤ ·)) :
+    (sortedRemove a v).1.Pairwise (· ≤ ·) ∧
+    ((sortedRemove a v).2 = -1 ↔ v ∉ a) ∧
+    ((sortedRemove a v).2 ≠ -1 → ∃ i : Nat, (sortedRemove a v).2 = i ∧ a.getD i 0 = v ∧ (sortedRemove a v).1 = a.eraseIdx i) := by
+  have hs := search_spec a v h
+  unfold sortedRemove
+  cases hr : search a v with
+  | inl i =>
+    rw [hr] at hs
+    obtain ⟨hi, hv⟩ := hs
+    have hm : v ∈ a := hv ▸ mem_of_getD a i hi
+    refine ⟨h.sublist (List.eraseIdx_sublist _ _), by simp [hm], fun _ => ⟨i, rfl, hv, rfl⟩⟩
+  | inr i =>
+    rw [hr] at hs
+    obtain ⟨hi, hb, ha⟩ := hs
+    have hm : v ∉ a := by
+      intro hin
+      obtain ⟨j, hj, hjv⟩ := getD_of_mem a v hin
+      by_cases c : j < i
+      · have := hb j c; omega
+      · have := ha j (by omega) hj; omega
+    exact ⟨h, by simp [hm], fun hc => absurd rfl hc⟩
+
+end SORTED
+
 /-! ## AVL tree (`iwavl.c`): reference = strictly increasing list of keys -/
 section AVL
 open Avl
